@@ -967,3 +967,47 @@ def c02(ctx):
     if worst:
         ctx.sample({"kind": "redis-cost", "cases": len(cases), "worst_alloc_minus_64n": worst[0], "what": worst[1],
                     "n": worst[2], "alloc": worst[3], "cpu_s": worst[4]})
+
+
+# ------------------------------------------------------------------------------------ C11 share
+def c11(ctx):
+    """Redis share of C11: every item emitted for well-formed conversations (every command of the
+    table, every reply type, binary values) and for corrupted streams goes through the JSON round
+    trips, Analyze, Summarize and Represent."""
+    from fam import aggregate as _agg
+    tb = tables(ctx)
+    rng = ctx.rng
+    quick = ctx.tier == "quick"
+    convs = table_convs(rng, tb, every_arity=not quick)
+    convs = convs[:: (3 if quick else 1)] + [gen_conv(rng, tb, clean=rng.random() < 0.7, big=rng.random() < 0.1) for _ in range(60 if quick else 1500)]
+    cases, meta = [], []
+    for conv in convs:
+        cb, sb = enc_conv(conv)[0:2]
+        cases.append(case_json(random_chunking(rng, cb), random_chunking(rng, sb)))
+        meta.append("conversation")
+    base = [enc_conv(small_conv(rng, tb, rng.randint(1, 4)))[0:2] for _ in range(10 if quick else 60)]
+    for _ in range(150 if quick else 3000):
+        cb, sb = rng.choice(base)
+        cases.append(case_json([corrupt(rng, cb)], [corrupt(rng, sb)]))
+        meta.append("corrupted")
+    res = []
+    rc, out = ctx.vh("vh-redis", ["stage"], inp="\n".join(cases) + "\n", timeout=900, merge_stderr=False)
+    lines = [l for l in out.split("\n") if l.startswith("{")]
+    if rc != 0 or len(lines) != len(cases):
+        ctx.violation({"kind": "redis-c11-crash", "case": json.loads(cases[len(lines)]) if len(lines) < len(cases) else None,
+                       "output_tail": out[-600:], "why": "the process died in a later stage"})
+        return
+    reported, nitems = 0, 0
+    for c, kind, l in zip(cases, meta, lines):
+        r = json.loads(l)
+        for st in r.get("stages") or []:
+            nitems += 1
+            ctx.count_case(("redis-c11", c, nitems), True, "redis-c11-" + kind)
+            _agg.note_c16(ctx, "resp", st, {"family": "resp", "how": "vh-redis stage", "case": json.loads(c)})
+            bad = st.get("panic") or st.get("problems")
+            if st.get("panic", "").startswith("kfl"):
+                bad = None
+            if bad and reported < 3:
+                reported += 1
+                ctx.violation({"kind": "redis-c11", "case": json.loads(c), "observed": bad, "method": st.get("method"), "how": "vh-redis stage"})
+    ctx.sample({"kind": "redis-c11", "items": nitems})
